@@ -22,6 +22,7 @@ var c16FixedSessions = [][]string{
 	{`@leaf(s)<i>a</i><b></b>`, `<i>a</i>@leaf(s)<b></b>`},
 	{`<b>x</b>{ s }<i>y</i>{ t }<u>z</u>`, `<b>x</b><i>y</i>{ s }{ t }<u>z</u>`, `<b>x</b><i>y</i>{ s }<u>z</u>{ t }`},
 	{`<p>a</p>{ s }<p>b</p>`, `<p>a</p><p>b</p>{ s }`, `<p>a</p><p>bb</p>{ s }`},
+	{`<p>sale</p>{ s }`, `<p>50% off, 100%; %s</p>{ s }`, `<p style="width: 100%">%d{ s }</p>`},
 }
 
 // c16Sessions drives the REAL FSEventHandler (development mode) through edit sequences of one template file and reports,
